@@ -294,24 +294,30 @@ class HttpProxyPlugin(HttpProtocolHandlerPlugin):
         return False
 
     def on_client_connection_close(self) -> None:
+        # Request and response attributes are bytes received from the peers
+        # and need not be valid UTF-8.  Decode them leniently, the lifecycle
+        # callbacks below must run for every connection.
+        def _text(value: Any) -> Any:
+            return text_(value, errors='replace')
+
         context = {
             'client_ip': None if not self.client.addr else self.client.addr[0],
             'client_port': None if not self.client.addr else self.client.addr[1],
-            'server_host': text_(self.upstream.addr[0] if self.upstream else None),
-            'server_port': text_(self.upstream.addr[1] if self.upstream else None),
+            'server_host': _text(self.upstream.addr[0] if self.upstream else None),
+            'server_port': _text(self.upstream.addr[1] if self.upstream else None),
             'connection_time_ms': '%.2f' % ((time.time() - self.start_time) * 1000),
             # Request
-            'request_method': text_(self.request.method),
-            'request_path': text_(self.request.path),
-            'request_bytes': text_(self.request.total_size),
-            'request_ua': text_(self.request.header(b'user-agent'))
+            'request_method': _text(self.request.method),
+            'request_path': _text(self.request.path),
+            'request_bytes': _text(self.request.total_size),
+            'request_ua': _text(self.request.header(b'user-agent'))
             if self.request.has_header(b'user-agent')
             else None,
-            'request_version': text_(self.request.version),
+            'request_version': _text(self.request.version),
             # Response
             'response_bytes': self.response.total_size,
-            'response_code': text_(self.response.code),
-            'response_reason': text_(self.response.reason),
+            'response_code': _text(self.response.code),
+            'response_reason': _text(self.response.reason),
         }
         if self.flags.enable_proxy_protocol:
             assert self.request.protocol and self.request.protocol.family
